@@ -294,7 +294,11 @@ PROPS = {
                 dict(gen="rdr_rtu", n=(3000, 60000),
                      exhaustive="both parser directions: all chunk compositions of fixed frames <= 9 (11) bytes; every single-bit "
                                 "error of 17 fixed frames; double-bit errors (every 23rd pair quick, all pairs thorough); "
-                                "bursts <= 16 bits at every 3rd (every) start")],
+                                "bursts <= 16 bits at every 3rd (every) start"),
+                # emission: every frame the library writes on a serial link (server replies incl.
+                # exception replies, client requests) and its acceptance by the peer's rule
+                dict(gen="srv_rtu", n=(1200, 80000)), dict(gen="cl_enc", n=(300, 20000)),
+                dict(gen="cl_task", n=(400, 30000))],
         level_text="Proof: CRC-16/MODBUS algebra on the bit-serial register (linearity, injectivity on 16-bit values, order of x) "
                    "gives burst_detected (<=16 bits), single_bit_detected, double_bit_detected (frames up to 2100 bits) and the bridge "
                    "crc_trailer_zero_iff; format_crc/format_len_le (emitted frames carry the right CRC, <= 256 bytes); accept_sound (a frame "
